@@ -83,6 +83,12 @@ def _classes():
         async def execute(self, job):
             step_name = self.step.name
             STATE["attempts"].append((job.name, "execute", time.time()))
+            ctx_ = self.step.workflow.context
+            reg = {}
+            for loc in ctx_.scheduler.get_locations(job.name):
+                for d in (job.input_directory, job.output_directory, job.tmp_directory):
+                    reg[d] = [bool(ctx_.data_manager.get_data_locations(d, loc.deployment, loc.name)), os.path.isdir(d)]
+            STATE["avail"].append((job.name, reg))
             if _inject(step_name, job, "execute"):
                 context = self.step.workflow.context
                 cmd_out = CommandOutput("Injected failure", Status.FAILED)
@@ -104,12 +110,6 @@ def _classes():
                 raise WorkflowExecutionException(f"Injected error into {self.name} step")
             await ScheduleStep._set_job_directories(self, connector, locations, job)
             STATE["dirs"].append((job.name, [job.input_directory, job.output_directory, job.tmp_directory]))
-            dm = self.workflow.context.data_manager
-            reg = {}
-            for loc in locations:
-                for d in (job.input_directory, job.output_directory, job.tmp_directory):
-                    reg[d] = [bool(dm.get_data_locations(d, deployment=connector.deployment_name, location_name=loc.name)), os.path.isdir(d)]
-            STATE["avail"].append((job.name, reg))
 
     class SfvTransferStep(InjectorFailureTransferStep):
         async def transfer(self, job, token):
@@ -131,8 +131,11 @@ def _classes():
         def get_execute_pipeline(self, command, deployment_names, input_ports, outputs, step_name, workflow,
                                  binding_config=None, **_ignored):
             from tests.utils.workflow import EvalCommandOutputProcessor
+            extra = {}
+            if STATE.get("fixed_tmp") and step_name in STATE["fixed_tmp"]:
+                extra["tmp_directory"] = STATE["fixed_tmp"][step_name]
             schedule_step = self._get_schedule_step(cls=SfvScheduleStep, binding_config=binding_config,
-                                                    deployment_names=deployment_names, step_name=step_name, workflow=workflow)
+                                                    deployment_names=deployment_names, step_name=step_name, workflow=workflow, **extra)
             execute_step = workflow.create_step(ExecuteStep, name=step_name, job_port=schedule_step.get_output_port())
             execute_step.command = SfvCommand(execute_step, command=command)
             for key, port in input_ports.items():
@@ -317,6 +320,7 @@ async def _run(case: dict) -> dict:
     root = case["root"]
     os.makedirs(root, exist_ok=True)
     STATE["inputs_dir"] = os.path.join(root, "inputs")
+    STATE["fixed_tmp"] = {st: os.path.join(root, "work", "test-fs-volatile", "fixed-" + st.strip("/")) for st in case.get("fixed_tmp", [])}
     os.makedirs(STATE["inputs_dir"], exist_ok=True)
     fm = ({"type": "default", "config": {"max_retries": case.get("max_retries"), "retry_delay": 0}}
           if case.get("manager", "rollback") == "rollback" else {"type": "dummy", "config": {}})
